@@ -105,68 +105,64 @@ func Try(a app.App, ctx app.IOContext) (err error) {
 		return err
 	}
 	go func() {
-		var catchErr error
+		var (
+			catchErr error
+			handlers []app.Scope
+		)
 		defer parentScope.DoneTask()
 		catchErr = separatedScope.Wait()
-		// run finally
-		if deps.FinallyBody != "" {
+		// Every handler runs in a scope of its own (like the body): a failing handler must not
+		// cancel the other one. Their errors reach the surrounding scope when all of them finished.
+		defer func() {
+			for _, handlerScope := range handlers {
+				if handlerErr := handlerScope.Wait(); handlerErr != nil {
+					parentScope.AppendError(handlerErr)
+				}
+			}
+		}()
+		runHandler := func(name, body, description string) (err error) {
+			handlerScope := scope.New(scope.Params{
+				DataScope:  parentScope,
+				EventScope: parentScope,
+				Injector:   injector.NewMultiInjector([]app.Injector{parentScope}),
+			})
 			if err = deps.Runner.Run(pipservices.Pip{
 				Context: pipservices.PipContext{
-					In:    gio.NewInput(strings.NewReader(deps.FinallyBody)),
+					In:    gio.NewInput(strings.NewReader(body)),
 					Out:   out,
 					Err:   erro,
 					CWD:   ctxIO.CWD(),
-					Scope: parentScope,
+					Scope: handlerScope,
 				},
-				Name:        "finally",
-				Description: "",
+				Name:        name,
+				Description: description,
 				Namespaces:  scpNamespaces,
 				Sandbox:     "self", // only self sandbox is supported
 				Lock:        nil,    // lock is unsupported
 				Wait:        nil,    // wait is unsupported
 			}); err != nil {
+				return err
+			}
+			handlers = append(handlers, handlerScope)
+			return nil
+		}
+		// run finally
+		if deps.FinallyBody != "" {
+			if err = runHandler("finally", deps.FinallyBody, ""); err != nil {
 				parentScope.AppendError(err)
 				return
 			}
 		}
 		// run fail (if required)
 		if deps.FailBody != "" && catchErr != nil {
-			if err = deps.Runner.Run(pipservices.Pip{
-				Context: pipservices.PipContext{
-					In:    gio.NewInput(strings.NewReader(deps.FailBody)),
-					Out:   out,
-					Err:   erro,
-					CWD:   ctxIO.CWD(),
-					Scope: parentScope,
-				},
-				Name:        "fail",
-				Description: catchErr.Error(),
-				Namespaces:  scpNamespaces,
-				Sandbox:     "self", // only self sandbox is supported
-				Lock:        nil,    // lock is unsupported
-				Wait:        nil,    // wait is unsupported
-			}); err != nil {
+			if err = runHandler("fail", deps.FailBody, catchErr.Error()); err != nil {
 				parentScope.AppendError(err)
 				return
 			}
 		}
 		// run success (if required)
 		if deps.SuccessBody != "" && catchErr == nil {
-			if err = deps.Runner.Run(pipservices.Pip{
-				Context: pipservices.PipContext{
-					In:    gio.NewInput(strings.NewReader(deps.SuccessBody)),
-					Out:   out,
-					Err:   erro,
-					CWD:   ctxIO.CWD(),
-					Scope: parentScope,
-				},
-				Name:        "success",
-				Description: "",
-				Namespaces:  scpNamespaces,
-				Sandbox:     "self", // only self sandbox is supported
-				Lock:        nil,    // lock is unsupported
-				Wait:        nil,    // wait is unsupported
-			}); err != nil {
+			if err = runHandler("success", deps.SuccessBody, ""); err != nil {
 				parentScope.AppendError(err)
 				return
 			}
